@@ -10,7 +10,7 @@ HARNESS = "rx"
 HARNESS_ARGS = ["c02"]
 ALLOWED_AXIOMS = []
 RUN_IMPORT = "Reactive.GraphRun"
-READY = False
+READY = True
 SHRINK_PREFIX = 1
 IMPL_TIMEOUT = 1200
 describe = X.describe
@@ -109,7 +109,7 @@ def selfwrite(rng):
 def generate(rng, tier):
     quick = tier == "quick"
     # exhaustive schedules for small programs
-    for prog in small_programs(rng, 5 if quick else 60):
+    for prog in small_programs(rng, 12 if quick else 80):
         if sum(1 for nd in prog if nd[0] == X.EFF) == 3 and quick:
             scheds = list(exhaustive(rng, prog, 1))
         else:
@@ -117,7 +117,7 @@ def generate(rng, tier):
         for ops in scheds:
             yield dict(case=C.norm([prog, ops]), kind="exhaustive", compare=True)
     # seeded-random programs, histories and schedules
-    for i in range(1500 if quick else 30000):
+    for i in range(12000 if quick else 120000):
         ne = rng.choice([1, 2, 2, 3, 4])
         prog = X.gen_program(rng, rng.randint(ne + 2, 11), ne)
         ops = X.gen_ops(rng, prog, rng.randint(8, 40), w=(0.30, 0.04, 0.12, 0.24, 0.18, 0.12))
@@ -125,7 +125,7 @@ def generate(rng, tier):
             ops.append([4])
         yield dict(case=C.norm([prog, ops]), kind="random", compare=True)
     # pause / resume through both notification paths (F-C02-a shape and variations)
-    for i in range(150 if quick else 3000):
+    for i in range(1500 if quick else 15000):
         ne = rng.choice([1, 2])
         prog = X.gen_program(rng, rng.randint(ne + 2, 7), ne, p_untr=0.05)
         effs = [j for j, nd in enumerate(prog) if nd[0] == X.EFF]
@@ -141,7 +141,7 @@ def generate(rng, tier):
     for i in range(30 if quick else 300):
         yield dict(case=C.norm(selfwrite(rng)), kind="selfwrite", compare=True)
     # ImmediateEffect: not modelled; watchdog + oracle only
-    for i in range(120 if quick else 3000):
+    for i in range(800 if quick else 8000):
         ne = rng.choice([1, 1, 2])
         prog = X.gen_program(rng, rng.randint(ne + 2, 8), ne, eff_kinds=(5,), allow_wr=False, p_untr=0.05)
         ops = X.gen_ops(rng, prog, rng.randint(5, 20), w=(0.5, 0.05, 0.25, 0.0, 0.1, 0.1))
